@@ -42,6 +42,7 @@ def run(ctx):
     wrappers.digest_wrapper(ctx, rep, roles, "C12", "R12.8")
     from .. import identity
     identity.check(ctx, rep, "C12", "R12.9", ["id-eq", "id-hash", "id-ord", "id-clone", "hb-ord"])
+    identity.check_keys(ctx, rep, "C12", "R12.10", ["fd-sets", "cluster", "digest"])
 
 
 def r12_1b(ctx, rep, roles):
